@@ -15,7 +15,7 @@ pub fn def() -> PropDef {
         predicate,
         nontrivial,
         functional: false,
-        rule: "grammar-generated programs, well-typed and ill-typed (30% of sub-expressions ignore the requested type), depth <= 8, over every operator, macro, built-in and literal form, against contexts with i64/u64 extremes, NaN/inf/-0.0, empty and non-ASCII strings and bytes, nested lists and maps, chrono-limit durations and timestamps, function values and host functions of arity 0-9; conversion texts either side of every representation limit (durations in every unit, timestamps at the year limits incl. leap-second notation - the latter checked for panics only, the model has no leap seconds -, int/uint/double texts); plus all ordered pairs of a ~70-value boundary set under each operator implementation called directly; non-trivial = contains an operator, call or macro (programs) / always (direct pairs); distinct = distinct case text",
+        rule: "grammar-generated programs, well-typed and ill-typed (30% of sub-expressions ignore the requested type), depth <= 8, over every operator, macro, built-in and literal form, against contexts with i64/u64 extremes, NaN/inf/-0.0, empty and non-ASCII strings and bytes, nested lists and maps, chrono-limit durations and timestamps, function values and host functions of arity 0-9; conversion texts either side of every representation limit (durations in every unit, timestamps at the year limits incl. leap-second notation - the latter checked for panics only, the model has no leap seconds -, int/uint/double texts); max / min / comparison / membership / arithmetic over NaN, infinities and extremes in every argument position, every list and string length 0-4 indexed at every position around its end by int, uint and ill-typed indices; plus all ordered pairs of a ~70-value boundary set under each operator implementation called directly; non-trivial = contains an operator, call or macro (programs) / always (direct pairs); distinct = distinct case text",
         post: super::no_post,
         exhaustive_note: "boundary pairs under the direct operators are enumerated completely; programs are a random sample",
     }
@@ -159,6 +159,67 @@ pub fn generate(tier: Tier, rng: &mut Rng) -> Vec<Case> {
         if let Some(mut c) = eval_case_from_src(&spec, src) {
             c.tags = vec!["special"];
             out.push(c);
+        }
+    }
+    // functions and operators over collections that hold NaN / infinities / extremes next to
+    // ordinary numbers (folds and comparisons that assume a total order are one NaN away from
+    // an `expect`)
+    {
+        let mut spec = CtxSpec::default_ctx();
+        spec.vars.push(("dnan".into(), Value::Float(f64::NAN)));
+        spec.vars.push(("dinf".into(), Value::Float(f64::INFINITY)));
+        spec.vars.push(("imin".into(), Value::Int(i64::MIN)));
+        spec.vars.push(("umax".into(), Value::UInt(u64::MAX)));
+        spec.vars.push(("nums".into(), Value::List(Arc::new(vec![Value::Int(i64::MIN), Value::Float(f64::NAN), Value::UInt(u64::MAX), Value::Float(-0.0)]))));
+        spec.vars.push(("mixed".into(), Value::List(Arc::new(vec![Value::Int(1), Value::String(Arc::new("a".into())), Value::Null, Value::Float(f64::NAN)]))));
+        host_ctx(rng, &mut spec);
+        let atoms = ["dnan", "dinf", "-dinf", "imin", "umax", "1", "1.5", "2u", "0.0", "-0.0", "nums", "mixed", "[dnan]", "[1, dnan]", "[dnan, 1]", "'a'", "null", "[]"];
+        for f in ["max", "min"] {
+            for a in &atoms {
+                for src in [format!("{f}({a})"), format!("{a}.{f}()"), format!("[{a}, 1].map(x, {f}(x, 0))")] {
+                    if let Some(mut c) = eval_case_from_src(&spec, &src) {
+                        c.tags = vec!["special", "nan-fold"];
+                        out.push(c);
+                    }
+                }
+                for b in &atoms {
+                    for src in [format!("{f}({a}, {b})"), format!("{f}({a}, {b}, {a})"), format!("{f}([{a}, {b}])")] {
+                        if let Some(mut c) = eval_case_from_src(&spec, &src) {
+                            c.tags = vec!["special", "nan-fold"];
+                            out.push(c);
+                        }
+                    }
+                }
+            }
+        }
+        for a in &atoms {
+            for b in &atoms {
+                for op in ["<", "<=", ">", ">=", "==", "!=", "in", "+", "-", "*", "/", "%"] {
+                    if let Some(mut c) = eval_case_from_src(&spec, &format!("{a} {op} {b}")) {
+                        c.tags = vec!["special", "nan-fold"];
+                        out.push(c);
+                    }
+                }
+                for src in [format!("{b}.contains({a})"), format!("[{a}].exists(x, x == {b})"), format!("{{{a}: {b}}}"), format!("{b}[{a}]")] {
+                    if let Some(mut c) = eval_case_from_src(&spec, &src) {
+                        c.tags = vec!["special", "nan-fold"];
+                        out.push(c);
+                    }
+                }
+            }
+        }
+        // every list length around every index, int and uint (an off-by-one at the end of the range)
+        for len in 0..=4usize {
+            let lit = format!("[{}]", (0..len).map(|i| (i + 7).to_string()).collect::<Vec<_>>().join(", "));
+            for idx in ["0", "1", "2", "3", "4", "5", "-1", "0u", "1u", "2u", "3u", "4u", "5u", "size(L)", "size(L) - 1", "size(L) + 1", "uint(size(L))", "1.0", "dnan", "'0'", "null", "true"] {
+                let i = idx.replace("L", &lit);
+                for src in [format!("{lit}[{i}]"), format!("{lit}.map(x, {lit}[{i}])"), format!("[0, 1, 2, 3, 4].filter(i, {lit}[i] > 7)"), format!("'abcd'.size() > 0 ? {lit}[{i}] : 0"), format!("'{}'[{i}]", "é".repeat(len))] {
+                    if let Some(mut c) = eval_case_from_src(&spec, &src) {
+                        c.tags = vec!["special", "index-edge"];
+                        out.push(c);
+                    }
+                }
+            }
         }
     }
     // conversions from text on either side of every representation limit
